@@ -24,6 +24,7 @@ let () = run_protocol [
   "cor_spherical", (function [h] -> VF (cor_spherical o (gf h)) | _ -> failwith "arity");
   "cor_circular", (function [h] -> VF (cor_circular o (gf h)) | _ -> failwith "arity");
   "cor_tplsimple", (function [nu; h] -> VF (cor_tplsimple o (gf nu) (gf h)) | _ -> failwith "arity");
+  "base_error", (function [n; v] -> VZ (int_of_z (arg_error o (base_bound o (bname_of_Z (gz n))) (gf v))) | _ -> failwith "arity");
   "elem", (function [c; p; l; v; n; r] ->
       let f = function None -> Float.nan | Some x -> x in
       VV [f (correlation_elem o (cl c) (gf p) (gf l) (gf r)); f (covariance_elem o (cl c) (gf p) (gf l) (gf v) (gf r));
